@@ -9,8 +9,9 @@
 (*   - the table of EMISSION POINTS of the annotation pipeline (every      *)
 (*     place where a collection is turned into an ordered output or into   *)
 (*     an order-dependent choice), named after their source sites;         *)
-(*   - the semantics of the four ways a point can order its output         *)
-(*     (Apply), the static taint analysis (Taint) and the clauses.         *)
+(*   - the semantics of the ways a point can order its output (Apply:      *)
+(*     sorted / list / hashset / greedy, plus bundle for writers), the     *)
+(*     static taint analysis (Taint) and the clauses.                      *)
 (* MC_Determinism explores the pipeline twice (two fresh processes, the    *)
 (* adversary picks the seed); Trace_Determinism judges the recorded        *)
 (* observations of the real code.                                          *)
@@ -19,7 +20,9 @@
 (* points it reads, how it orders its output) and put its name into Order  *)
 (* after the points it reads.  A new `hashset` row that reaches an         *)
 (* artefact without an intervening `sorted` row makes MC_Determinism fail  *)
-(* SameAcrossRuns for that artefact.                                       *)
+(* SameAcrossRuns for that artefact (and, if the harness observes it, put  *)
+(* its abbreviation into harness/determinism.py ABBR).                     *)
+(* Line numbers refer to /repo HEAD 7231dda.                               *)
 (***************************************************************************)
 EXTENDS Naturals, Sequences, FiniteSets, TLC
 
